@@ -134,6 +134,32 @@ pub fn generate(r: &mut Runner) {
             }
         }
     }
+    // stage 1b: signed symbols whose sums cancel exactly ({1, −3, 2}: 1 − 3 + 2 = 0), for the indicators whose input may
+    // have any sign — a running total that happens to be exactly 0 must not be mistaken for an empty window
+    let ssym: [f64; 3] = [1.0, -3.0, 2.0];
+    for name in ["SimpleMovingAverage", "WeightedMovingAverage", "StandardDeviation", "MeanAbsoluteDeviation", "Minimum", "Maximum", "BollingerBands"] {
+        let (np, nm) = crate::ind::arity(name).unwrap();
+        for n in 1..=4usize {
+            let mem = memory(name, n);
+            if mem + 1 > depth {
+                continue;
+            }
+            let ps: Vec<usize> = (0..np).map(|_| n).collect();
+            let ms: Vec<f64> = (0..nm).map(|_| 2.0).collect();
+            for code in 0..3usize.pow(depth as u32) {
+                let mut c = Case::new("C17", "signed-cancelling-exhaustive", name, &ps, &ms);
+                let mut k = code;
+                for j in 0..depth {
+                    if j == depth - (mem + 1) {
+                        c.ops.push(Op::Mark);
+                    }
+                    c.ops.push(Op::Next(ssym[k % 3]));
+                    k /= 3;
+                }
+                r.run(c, true);
+            }
+        }
+    }
     let cases = if r.tier == Tier::Quick { 960 } else { 36000 };
     r.log_every = if r.tier == Tier::Quick { 11 } else { 401 };
     for i in 0..cases {
@@ -171,4 +197,4 @@ pub fn generate(r: &mut Runner) {
     }
 }
 
-pub const RULE: &str = "stage 1 (exact ties): periods 1..=4, every sequence of length 7 (quick) / 9 (thorough) over three symbols, split into an arbitrary prefix and a suffix of memory+1 inputs; stage 2: 12 windowed indicators × periods 1..=4 (a third) and sampled to 128 × an arbitrary prefix (0..300 / 0..2000 inputs, half of them with every 7th value ×10^6) followed by a common suffix of at least n (n+1 for ROC, ER, MFI) inputs; the instance that saw the whole history is compared with a fresh instance fed only the suffix at every suffix length from n (n+1) on: exactly for Minimum, Maximum, FastStochastic; tau(t)·M for the accumulating ones (sqrt(tau)·M on the SD scale), × the condition number of the suffix reference for ratios (gate 1e6). Non-trivial = non-empty prefix.";
+pub const RULE: &str = "stage 1 (exact ties): periods 1..=4, every sequence of length 7 (quick) / 9 (thorough) over three symbols, split into an arbitrary prefix and a suffix of memory+1 inputs; stage 1b: the same over the signed symbols {1,-3,2} (sums cancel exactly) for SMA, WMA, SD, MAD, Min, Max, BB; stage 2: 12 windowed indicators × periods 1..=4 (a third) and sampled to 128 × an arbitrary prefix (0..300 / 0..2000 inputs, half of them with every 7th value ×10^6) followed by a common suffix of at least n (n+1 for ROC, ER, MFI) inputs; the instance that saw the whole history is compared with a fresh instance fed only the suffix at every suffix length from n (n+1) on: exactly for Minimum, Maximum, FastStochastic; tau(t)·M for the accumulating ones (sqrt(tau)·M on the SD scale), × the condition number of the suffix reference for ratios (gate 1e6). Non-trivial = non-empty prefix.";
